@@ -1,5 +1,5 @@
 """C22 — per-step drive values are the interpolated Pulser samples; amplitude never negative."""
-from ..rules import kernels, adapter
+from ..rules import kernels, adapter, drivers
 
 META = {
     "title": "Per-step drive values are the interpolated Pulser samples",
@@ -30,3 +30,5 @@ def check(ctx):
     ctx.floor("CLAMP", 2)
     kernels.pchip_evaluation(ctx)
     kernels.pchip_end_slopes(ctx)
+    drivers.adapter_column_order(ctx)
+    drivers.adapter_column_ids(ctx)
